@@ -63,6 +63,10 @@ def unrot (c s : Rat) (d : Pt) : Pt := (c * d.1 + s * d.2, -s * d.1 + c * d.2)
 /-- `R(θ) d`. -/
 def rot (c s : Rat) (d : Pt) : Pt := (c * d.1 - s * d.2, s * d.1 + c * d.2)
 
+/-- `(x >= x0) & (x <= x1) & (y >= y0) & (y <= y1)`. -/
+def inBox (b : Rat × Rat × Rat × Rat) (p : Pt) : Bool :=
+  decide (b.1 ≤ p.1) && decide (p.1 ≤ b.2.1) && decide (b.2.2.1 ≤ p.2) && decide (p.2 ≤ b.2.2.2)
+
 /-! ## Rectangle -/
 
 structure Rect where
@@ -99,9 +103,10 @@ def bymin (r : Rect) : Rat :=
 def bymax (r : Rect) : Rat :=
   rmax (rmax (r.corner (-(r.width / 2)) (-(r.height / 2))).2 (r.corner (r.width / 2) (-(r.height / 2))).2)
        (rmax (r.corner (r.width / 2) (r.height / 2)).2 (r.corner (-(r.width / 2)) (r.height / 2)).2)
+/-- `(min x, max x, min y, max y)` of the rotated corners (`bounds = self.to_polygon()`). -/
+def bbox (r : Rect) : Rat × Rat × Rat × Rat := (r.bxmin, r.bxmax, r.bymin, r.bymax)
 /-- The bounding-box prefilter `keep` of the rotated branch. -/
-def keep (r : Rect) (p : Pt) : Bool :=
-  decide (r.bxmin ≤ p.1) && decide (p.1 ≤ r.bxmax) && decide (r.bymin ≤ p.2) && decide (p.2 ≤ r.bymax)
+def keep (r : Rect) (p : Pt) : Bool := inBox r.bbox p
 end Rect
 
 namespace Impl
@@ -272,13 +277,19 @@ structure Poly where
   s : Rat := 0
   deriving DecidableEq, Repr
 
+/-- `(min vx, max vx, min vy, max vy)`. -/
+def polyBBox (vs : List Pt) : Option (Rat × Rat × Rat × Rat) :=
+  match vs with
+  | [] => none
+  | v :: rest =>
+    some (minList v.1 (rest.map (·.1)), maxList v.1 (rest.map (·.1)),
+          minList v.2 (rest.map (·.2)), maxList v.2 (rest.map (·.2)))
+
 /-- `keep` of `points_inside_poly`: inside the closed bounding box of the vertices. -/
 def polyKeep (vs : List Pt) (p : Pt) : Bool :=
-  match vs with
-  | [] => false
-  | v :: rest =>
-    decide (minList v.1 (rest.map (·.1)) ≤ p.1) && decide (p.1 ≤ maxList v.1 (rest.map (·.1))) &&
-    decide (minList v.2 (rest.map (·.2)) ≤ p.2) && decide (p.2 ≤ maxList v.2 (rest.map (·.2)))
+  match polyBBox vs with
+  | none => false
+  | some b => inBox b p
 
 namespace Impl
 /-- `points_inside_poly`: bbox prefilter, then `Path.contains_points` (which answers `False` for a
@@ -416,6 +427,42 @@ def contains : Roi → Pt → Bool
   | .range r, p => rangeContains r p
   | .poly g, p => polyContains g.vs p
   | .undefined, _ => false
+end Impl
+
+namespace Impl
+/-- `contains` with the per-region constants (bounding boxes, centre, half sizes) evaluated once;
+this is what the driver maps over a point list.  `containsFn_eq` shows it is the same function. -/
+def containsFn (roi : Roi) : Pt → Bool :=
+  match roi with
+  | .rect r =>
+    match branchOf r.c r.s with
+    | .general =>
+      let b := r.bbox
+      let ctr := r.center
+      let hw := r.width / 2
+      let hh := r.height / 2
+      let c := r.c
+      let s := r.s
+      fun p => inBox b p && absLe (unrot c s (p.1 - ctr.1, p.2 - ctr.2)).1 hw &&
+        absLe (unrot c s (p.1 - ctr.1, p.2 - ctr.2)).2 hh
+    | _ => rectContains r
+  | .poly g =>
+    match polyBBox g.vs with
+    | none => fun _ => false
+    | some b =>
+      let n3 := decide (3 ≤ g.vs.length)
+      fun p => inBox b p && n3 && crossParity g.vs p
+  | roi => contains roi
+
+theorem containsFn_eq (roi : Roi) (p : Pt) : containsFn roi p = contains roi p := by
+  cases roi with
+  | rect r =>
+    simp only [containsFn, contains]
+    cases h : branchOf r.c r.s <;> simp [rectContains, h, Rect.keep, Rect.loc]
+  | poly g =>
+    simp only [containsFn, contains, polyContains, polyKeep]
+    split <;> simp_all
+  | _ => rfl
 end Impl
 
 namespace Spec
